@@ -18,7 +18,11 @@ pub fn gen_case(seed: u64, index: u64) -> Case {
         // short history, every single allocation fault enumerated
         let len = 3 + rng.below(if cfg!(miri) { 5 } else { 10 }) as usize;
         let sw = if rng.chance(1, 2) { sw.ints_only() } else { sw };
-        (gen::gen_history(&mut rng, &sw, len, 0), true, false)
+        // (macro-steps on very long operands are left to the other two kinds of history: enumerating every fault of a
+        // step that costs tens of milliseconds would dominate the run)
+        let mut ops = gen::gen_history(&mut rng, &sw, len, 0);
+        ops.retain(|o| !gen::is_macro_step(&o.name));
+        (ops, true, false)
     } else if kind < 45 {
         // fault-free history with the shadow differential (hidden-state independence)
         let len = 4 + rng.below(if cfg!(miri) { 10 } else { 40 }) as usize;
@@ -118,7 +122,7 @@ pub fn run_case(case: &Case, stats: &mut Stats) -> CaseResult {
         }
         // every callback fault of this history: the k-th call of a caller-supplied fmt sink / iterator fails or panics
         for (k, &calls) in o1.callbacks.iter().enumerate() {
-            for j in 1..=calls.min(if cfg!(miri) { 2 } else { 12 }) {
+            for j in 1..=calls.min(if cfg!(miri) { 2 } else { 6 }) {
                 for kind in [FaultKind::CbErr, FaultKind::CbPanic] {
                     let mut c = case.clone();
                     c.enumerate = false;
@@ -141,7 +145,7 @@ pub fn run_case(case: &Case, stats: &mut Stats) -> CaseResult {
         let mut prng = Rng::new(case.garbage_seed ^ 0xFA17_FA17);
         let sites: Vec<(usize, u32)> = o1.fallible.iter().enumerate().flat_map(|(k, &e)| (1..=e.min(6)).map(move |j| (k, j))).collect();
         if sites.len() >= 2 {
-            let pairs = if cfg!(miri) { 2 } else { 48.min(sites.len() * (sites.len() - 1) / 2) };
+            let pairs = if cfg!(miri) { 2 } else { 16.min(sites.len() * (sites.len() - 1) / 2) };
             for _ in 0..pairs {
                 let (a, b) = (prng.below(sites.len() as u64) as usize, prng.below(sites.len() as u64) as usize);
                 let ((k1, j1), (k2, j2)) = (sites[a.min(b)], sites[a.max(b)]);
